@@ -11,6 +11,7 @@ def run(tier, seed):
     results = pool.run_tasks("checks.parser_common:task", tasks)
     results += pool.run_tasks("checks.parser_common:task", PC.audit_tasks(tier, seed, ORACLES))
     results += pool.run_tasks("checks.parser_common:valid_task", PC.valid_tasks(tier, seed, ORACLES, layouts=["upper", "crlf"]))
+    results += pool.run_tasks("checks.parser_common:comment_task", PC.comment_tasks(tier, ORACLES))
     cov, viols, harness = PC.assemble(results)
     return dict(violations=viols, coverage=cov, harness_errors=harness, assumptions=PC.ASSUMPTIONS)
 
